@@ -229,6 +229,7 @@ type OpenEv struct {
 	Sol       Paths   `json:"sol"`
 	SolOpen   Paths   `json:"solOpen"`
 	Tree      []TNode `json:"tree"`
+	SolClosed Paths   `json:"solClosed"` // closed solution of the same call made without the open paths
 	ArgsSame  bool    `json:"argsSame"`
 	Probes    []Pt    `json:"probes"`   // region probes (closed solution)
 	OnProbes  []Pt    `json:"onProbes"` // points on the open subject lines
@@ -277,6 +278,36 @@ func execOpen(r *rand.Rand, e *OpenEv) {
 		}
 	})
 	e.Sol, e.SolOpen = nz(e.Sol), nz(e.SolOpen)
+	// the same call without the open paths ("open paths never appear in, or alter, the closed solution")
+	e.SolClosed = Paths{}
+	safeCall(func() {
+		switch e.Api {
+		case "EngineDOC":
+			c := clipper.NewClipperD(1)
+			c.AddPaths(toPathsD(e.Subj), clipper.Subject, false)
+			c.AddPaths(toPathsD(e.Clip), clipper.Clip, false)
+			var s, o clipper.PathsD
+			c.ExecuteOC(ct, fr, &s, &o)
+			e.SolClosed = nz(fromPathsDScaled(s, 10))
+		case "Engine64Tree":
+			c := clipper.NewClipper64()
+			c.AddPaths(toPaths64(e.Subj), clipper.Subject, false)
+			c.AddPaths(toPaths64(e.Clip), clipper.Clip, false)
+			t := clipper.NewPolyTree64()
+			var o clipper.PathsD
+			c.ExecutePolyTree64(ct, fr, t, &o)
+			for _, n := range flattenT(t.PolyPathBase) {
+				e.SolClosed = append(e.SolClosed, n.Poly)
+			}
+		default:
+			c := clipper.NewClipper64()
+			c.AddPaths(toPaths64(e.Subj), clipper.Subject, false)
+			c.AddPaths(toPaths64(e.Clip), clipper.Clip, false)
+			var s, o clipper.Paths64
+			c.ExecuteOC(ct, fr, &s, &o)
+			e.SolClosed = nz(fromPaths64(s))
+		}
+	})
 	e.ArgsSame = equalPaths(s0, e.Subj) && equalPaths(o0, e.Open) && equalPaths(c0, e.Clip)
 	// everything below in result units
 	subj, open, clip := scalePaths(e.Subj, e.K), scalePaths(e.Open, e.K), scalePaths(e.Clip, e.K)
@@ -318,7 +349,7 @@ func execOpen(r *rand.Rand, e *OpenEv) {
 		if exp(p) {
 			return farOpen(p, e.SolOpen, 12)
 		}
-		return !farOpen(p, e.SolOpen, 6)
+		return !farOpen(p, e.SolOpen, 2)
 	}
 	e.OnProbes = []Pt{}
 	if len(on) > 0 {
